@@ -1,4 +1,5 @@
 import Iavl.Lemmas.MembershipComplete
+import Iavl.Lemmas.NonMembershipSound
 import Iavl.Generated.FactsOk
 /-
   C03 — ICS-23 proofs: complete for every key and bound to key, value and root.
@@ -37,5 +38,51 @@ theorem existence_proof_sound (working : Nat) (t : Node Bytes Bytes) (hb : Bound
     (hroot : calcRoot H p = hashNode H working t) :
     (p.key, p.value) ∈ t.toList ∨ Collision H :=
   membership_sound H hH working t hb hk p hkey hleaf hops hroot
+
+include hH in
+/-- the same for the executable model of `ExistenceProof.Verify` (Model/Ics23.lean; compared with the
+    real verifier's verdicts on genuine and mutated proofs on every run): what it accepts is in the tree -/
+theorem verified_membership_is_true (working : Nat) (t : Node Bytes Bytes) (hb : Bounded working t)
+    (hk : KeysBounded t) (p : ExistProof) (key value : Bytes) (hkey : p.key.length < 2 ^ 64)
+    (hv : verifyExist H (hashNode H working t) p key value = true) :
+    (key, value) ∈ t.toList ∨ Collision H := by
+  have hv' := hv
+  simp only [verifyExist, Bool.and_eq_true, beq_iff_eq] at hv
+  obtain ⟨⟨⟨⟨⟨⟨⟨hleaf, _⟩, hpath⟩, hk1⟩, hv1⟩, _⟩, _⟩, hroot⟩ := hv
+  rw [hk1, hv1]
+  exact membership_sound H hH working t hb hk p hkey (checkLeaf_checked _ hleaf)
+    (checkPath_checked p.path 1 (by omega) hpath) hroot
+
+include hH in
+/-- **non-membership soundness**: a non-existence proof accepted by the model of
+    `NonExistenceProof.Verify` for `key` against the root hash of an ordered tree shows that `key` is
+    absent - it never verifies for a present key - or a collision of `H` is exhibited. Route: accepted
+    existence proofs locate their leaves; the padding tests force the directions; left-most, right-most
+    and neighbouring paths end at the first, last and adjacent pairs of the sorted contents. -/
+theorem nonexistence_proof_sound (working : Nat) (t : Node Bytes Bytes) (ho : Ordered t)
+    (hb : Bounded working t) (hk : KeysBounded t) (p : NonExistProof) (key : Bytes)
+    (hkl : ∀ l, p.left = some l → l.key.length < 2 ^ 64)
+    (hkr : ∀ r, p.right = some r → r.key.length < 2 ^ 64)
+    (hv : verifyNonExist H (hashNode H working t) p key = true) :
+    lookup key t.toList = none ∨ Collision H :=
+  nonmembership_sound H hH working t ho hb hk p key hkl hkr hv
+
+include hH in
+/-- the opposite kind of claim is excluded in both directions: for a key that a verified existence
+    proof shows present, no non-existence proof verifies against the same root (modulo a collision) -/
+theorem no_opposite_claim (working : Nat) (t : Node Bytes Bytes) (ho : Ordered t)
+    (hb : Bounded working t) (hk : KeysBounded t) (e : ExistProof) (n : NonExistProof) (key value : Bytes)
+    (hkey : e.key.length < 2 ^ 64)
+    (hkl : ∀ l, n.left = some l → l.key.length < 2 ^ 64)
+    (hkr : ∀ r, n.right = some r → r.key.length < 2 ^ 64)
+    (he : verifyExist H (hashNode H working t) e key value = true)
+    (hn : verifyNonExist H (hashNode H working t) n key = true) : Collision H := by
+  rcases verified_membership_is_true H hH working t hb hk e key value hkey he with hm | hc
+  · rcases nonmembership_sound H hH working t ho hb hk n key hkl hkr hn with hl | hc
+    · exfalso
+      have := (lookup_none_iff key t.toList).mp hl (key, value) hm
+      exact this (by simp [Std.ReflCmp.compare_self])
+    · exact hc
+  · exact hc
 
 end Iavl.Props.C03
